@@ -35,3 +35,65 @@ Print Assumptions C15_sum_disjoint_union.
 Theorem C15_sum_overlap_counted_once : forall tv : list sym, enumerates (fun x : list sym => x = tv \/ x = tv) (tv :: nil) /\ sum_of (tv :: nil) = weight tv.
 Proof. exact (@sum_overlap_counted_once_proof). Qed.
 Print Assumptions C15_sum_overlap_counted_once.
+
+From NGO Require Import Sem.Sym Sem.Sat Sem.Cost Link.Equiv Link.SymmetrySem Link.DuplicationSem Link.InlineSem.
+
+Theorem C15_elems_unfold : forall (sym_lt : Ast.sym -> Ast.sym -> Prop) (qn : string) (ts : list string) (BL : list Ast.lit) (r : string -> string), simple_lits BL = true -> forall (tup : list Ast.term) (c1 c2 : list Ast.lit) (es1 es2 : list Ast.belem) (G : list string) (X T : interp) (s : subst), ren_apart ts BL r -> fresh_for ts BL r (G ++ elem_ctx_vars tup c1 c2) -> defd sym_lt qn ts BL X T -> AggSem.tup_eq (AggSem.elems_tuples sym_lt G X T s (es1 ++ elem_q qn ts r tup c1 c2 :: es2)) (AggSem.elems_tuples sym_lt G X T s (es1 ++ elem_u BL r tup c1 c2 :: es2)).
+Proof. exact (@InlineSem.elems_unfold). Qed.
+Print Assumptions C15_elems_unfold.
+
+Theorem C15_unfold_agg_fwd_sound : forall (sym_lt : Ast.sym -> Ast.sym -> Prop) (qn : string) (ts : list string) (BL : list Ast.lit) (l0 : nat) (r : string -> string), simple_lits BL = true -> ren_apart ts BL r -> forall (tup : list Ast.term) (c1 c2 : list Ast.lit) (es1 es2 : list Ast.belem) (sg : Ast.sign) (lg rg : option Ast.guard) (f : Ast.aggfun) (pre post : list Ast.bodyelem) (line : nat) (h : Ast.head), fresh_for ts BL r (gvars_rule h (body_aq qn ts r tup c1 c2 es1 es2 sg lg rg f pre post) ++ elem_ctx_vars tup c1 c2) -> forall C Q Q' : Ast.program, (forall st : Ast.stmt, In st Q <-> In st (def_stmt qn ts BL l0 :: rule_aq qn ts r tup c1 c2 es1 es2 sg lg rg f pre post line h :: C)) -> (forall st : Ast.stmt, In st Q' <-> In st (def_stmt qn ts BL l0 :: rule_au BL r tup c1 c2 es1 es2 sg lg rg f pre post line h :: C)) -> stmt_in (notp (qn, Datatypes.length ts)) (rule_au BL r tup c1 c2 es1 es2 sg lg rg f pre post line h) = true -> prog_in (notp (qn, Datatypes.length ts)) C = true -> lits_in (notp (qn, Datatypes.length ts)) BL = true -> forall I : list gatom, facts_over (fun p : string * nat => p <> (qn, Datatypes.length ts)) I -> forall T : interp, stable sym_lt Q I T -> stable sym_lt Q' I T.
+Proof. exact (@InlineSem.unfold_agg_fwd_sound). Qed.
+Print Assumptions C15_unfold_agg_fwd_sound.
+
+Theorem C15_unfold_agg_sound : forall (sym_lt : Ast.sym -> Ast.sym -> Prop) (qn : string) (ts : list string) (BL : list Ast.lit) (l0 : nat) (r : string -> string), simple_lits BL = true -> ren_apart ts BL r -> forall (tup : list Ast.term) (c1 c2 : list Ast.lit) (es1 es2 : list Ast.belem) (sg : Ast.sign) (lg rg : option Ast.guard) (f : Ast.aggfun) (pre post : list Ast.bodyelem) (line : nat) (h : Ast.head), fresh_for ts BL r (gvars_rule h (body_aq qn ts r tup c1 c2 es1 es2 sg lg rg f pre post) ++ elem_ctx_vars tup c1 c2) -> forall (low : Ast.pred -> bool) (C Q Q' : Ast.program), (forall st : Ast.stmt, In st Q <-> In st (def_stmt qn ts BL l0 :: rule_aq qn ts r tup c1 c2 es1 es2 sg lg rg f pre post line h :: C)) -> (forall st : Ast.stmt, In st Q' <-> In st (def_stmt qn ts BL l0 :: rule_au BL r tup c1 c2 es1 es2 sg lg rg f pre post line h :: C)) -> head_in (notp (qn, Datatypes.length ts)) h = true -> heads_in (notp (qn, Datatypes.length ts)) C = true -> low (qn, Datatypes.length ts) = true -> lits_in low BL = true -> head_in (nlow low) h = true -> (forall st : Ast.stmt, In st C -> stmt_in low st = true \/ stmt_head_in (nlow low) st = true) -> equiv_on sym_lt (fun p : Ast.pred => p <> (qn, Datatypes.length ts)) Q Q'.
+Proof. exact (@InlineSem.unfold_agg_sound). Qed.
+Print Assumptions C15_unfold_agg_sound.
+
+Theorem C15_unfold_existing_sound : forall (sym_lt : Ast.sym -> Ast.sym -> Prop) (q : string) (ts : list string) (r : string -> string) (P1 P2 P3 : Ast.program) (l0 line : nat) (h : Ast.head) (BL : list Ast.lit) (Rest : list Ast.bodyelem), let p := (q, Datatypes.length ts) in let D := Ast.SRule l0 (Ast.HLit (Ast.Lit Ast.NoSign (Ast.ASym (Ast.TFun q (map Ast.TVar ts) false)))) (map Ast.BLit BL) in let Q := P1 ++ (D :: nil) ++ P2 ++ (Ast.SRule line h (Rest ++ Ast.BLit (Ast.Lit Ast.NoSign (Ast.ASym (Ast.TFun q (map Ast.TVar (map r ts)) false))) :: nil) :: nil) ++ P3 in let Q' := P1 ++ (D :: nil) ++ P2 ++ (Ast.SRule line h (map Ast.BLit (map (ren_lit r) BL) ++ Rest) :: nil) ++ P3 in Ground.simple_prog Q = true -> Ground.simple_prog Q' = true -> heads_avoid p (P1 ++ P2 ++ (Ast.SRule line h Rest :: nil) ++ P3) = true -> ren_apart ts BL r -> fresh_for ts BL r (Ast.vars_head h ++ flat_map Ast.vars_bodyelem Rest) -> equiv_on sym_lt (fun p' : Ast.pred => p' <> p) Q Q'.
+Proof. exact (@InlineSem.unfold_existing_sound). Qed.
+Print Assumptions C15_unfold_existing_sound.
+
+Theorem C15_inline_agg_then_drop_sound : forall (sym_lt : Ast.sym -> Ast.sym -> Prop) (qn : string) (ts : list string) (BL : list Ast.lit) (l0 : nat) (r : string -> string), simple_lits BL = true -> ren_apart ts BL r -> forall (tup : list Ast.term) (c1 c2 : list Ast.lit) (es1 es2 : list Ast.belem) (sg : Ast.sign) (lg rg : option Ast.guard) (f : Ast.aggfun) (pre post : list Ast.bodyelem) (line : nat) (h : Ast.head), fresh_for ts BL r (gvars_rule h (body_aq qn ts r tup c1 c2 es1 es2 sg lg rg f pre post) ++ elem_ctx_vars tup c1 c2) -> forall (low : Ast.pred -> bool) (C Q Q2 : Ast.program), (forall st : Ast.stmt, In st Q <-> In st (def_stmt qn ts BL l0 :: rule_aq qn ts r tup c1 c2 es1 es2 sg lg rg f pre post line h :: C)) -> (forall st : Ast.stmt, In st Q2 <-> In st (rule_au BL r tup c1 c2 es1 es2 sg lg rg f pre post line h :: C)) -> stmt_in (notp (qn, Datatypes.length ts)) (rule_au BL r tup c1 c2 es1 es2 sg lg rg f pre post line h) = true -> prog_in (notp (qn, Datatypes.length ts)) C = true -> lits_in (notp (qn, Datatypes.length ts)) BL = true -> low (qn, Datatypes.length ts) = true -> lits_in low BL = true -> head_in (nlow low) h = true -> (forall st : Ast.stmt, In st C -> stmt_in low st = true \/ stmt_head_in (nlow low) st = true) -> cons_ext sym_lt (fun p : string * nat => p <> (qn, Datatypes.length ts)) (nonq qn ts) Q2 Q.
+Proof. exact (@InlineSem.inline_agg_then_drop_sound). Qed.
+Print Assumptions C15_inline_agg_then_drop_sound.
+
+Theorem C15_inline_agg_then_drop_cost : forall (sym_lt : Ast.sym -> Ast.sym -> Prop) (qn : string) (ts : list string) (BL : list Ast.lit) (l0 : nat) (r : string -> string), simple_lits BL = true -> ren_apart ts BL r -> forall (tup : list Ast.term) (c1 c2 : list Ast.lit) (es1 es2 : list Ast.belem) (sg : Ast.sign) (lg rg : option Ast.guard) (f : Ast.aggfun) (pre post : list Ast.bodyelem) (line : nat) (h : Ast.head), fresh_for ts BL r (gvars_rule h (body_aq qn ts r tup c1 c2 es1 es2 sg lg rg f pre post) ++ elem_ctx_vars tup c1 c2) -> forall (low : Ast.pred -> bool) (C Q Q2 : Ast.program) (IN : Ast.pred -> Prop) (OUT : gatom -> Prop), (forall st : Ast.stmt, In st Q <-> In st (def_stmt qn ts BL l0 :: rule_aq qn ts r tup c1 c2 es1 es2 sg lg rg f pre post line h :: C)) -> (forall st : Ast.stmt, In st Q2 <-> In st (rule_au BL r tup c1 c2 es1 es2 sg lg rg f pre post line h :: C)) -> stmt_in (notp (qn, Datatypes.length ts)) (rule_au BL r tup c1 c2 es1 es2 sg lg rg f pre post line h) = true -> prog_in (notp (qn, Datatypes.length ts)) C = true -> lits_in (notp (qn, Datatypes.length ts)) BL = true -> low (qn, Datatypes.length ts) = true -> lits_in low BL = true -> head_in (nlow low) h = true -> (forall st : Ast.stmt, In st C -> stmt_in low st = true \/ stmt_head_in (nlow low) st = true) -> (forall p : Ast.pred, IN p -> p <> (qn, Datatypes.length ts)) -> (forall a : gatom, OUT a -> nonq qn ts a) -> equiv_cost sym_lt IN OUT Q Q2.
+Proof. exact (@InlineSem.inline_agg_then_drop_cost). Qed.
+Print Assumptions C15_inline_agg_then_drop_cost.
+
+Theorem C15_inline_agg_min_then_drop_cost : forall (sym_lt : Ast.sym -> Ast.sym -> Prop) (qn : string) (ts : list string) (BL : list Ast.lit) (l0 : nat) (r : string -> string), simple_lits BL = true -> ren_apart ts BL r -> forall (tup : list Ast.term) (c1 c2 : list Ast.lit) (es1 es2 : list Ast.belem) (sg : Ast.sign) (lg rg : option Ast.guard) (f : Ast.aggfun) (pre post : list Ast.bodyelem) (line : nat) (w pr : Ast.term) (tms : list Ast.term), fresh_for ts BL r ((min_W w pr tms ++ flat_map gvars_bodyelem (body_aq qn ts r tup c1 c2 es1 es2 sg lg rg f pre post)) ++ elem_ctx_vars tup c1 c2) -> forall (C Q Q2 : Ast.program) (IN : Ast.pred -> Prop) (OUT : gatom -> Prop), (forall st : Ast.stmt, In st Q <-> In st (def_stmt qn ts BL l0 :: min_aq qn ts r tup c1 c2 es1 es2 sg lg rg f pre post line w pr tms :: C)) -> (forall st : Ast.stmt, In st Q2 <-> In st (min_au BL r tup c1 c2 es1 es2 sg lg rg f pre post line w pr tms :: C)) -> stmt_in (notp (qn, Datatypes.length ts)) (min_au BL r tup c1 c2 es1 es2 sg lg rg f pre post line w pr tms) = true -> prog_in (notp (qn, Datatypes.length ts)) C = true -> lits_in (notp (qn, Datatypes.length ts)) BL = true -> (forall p : Ast.pred, IN p -> p <> (qn, Datatypes.length ts)) -> (forall a : gatom, OUT a -> nonq qn ts a) -> cons_ext sym_lt (fun p : string * nat => p <> (qn, Datatypes.length ts)) (nonq qn ts) Q2 Q /\ equiv_cost sym_lt IN OUT Q Q2.
+Proof. exact (@InlineSem.inline_agg_min_then_drop_cost). Qed.
+Print Assumptions C15_inline_agg_min_then_drop_cost.
+
+Theorem C15_two_definitions_refuted : forall sym_lt : Ast.sym -> Ast.sym -> Prop, Ground.simple_prog (Refutations.a_d1 :: Refutations.a_d2 :: Refutations.a_r :: nil) = true /\ Ground.simple_prog (Refutations.a_d1 :: Refutations.a_d2 :: Refutations.a_r' :: nil) = true /\ heads_avoid ("q", 1) (Refutations.a_r :: nil) = true /\ heads_avoid ("q", 1) (Refutations.a_d2 :: Refutations.a_r :: nil) = false /\ facts_over (fun p : string * nat => p <> ("q", 1)) Refutations.a_I /\ stable sym_lt (Refutations.a_d1 :: Refutations.a_d2 :: Refutations.a_r :: nil) Refutations.a_I Refutations.a_T /\ ~ stable sym_lt (Refutations.a_d1 :: Refutations.a_d2 :: Refutations.a_r' :: nil) Refutations.a_I Refutations.a_T /\ ~ equiv_on sym_lt (fun p : Ast.pred => p <> ("q", 1)) (Refutations.a_d1 :: Refutations.a_d2 :: Refutations.a_r :: nil) (Refutations.a_d1 :: Refutations.a_d2 :: Refutations.a_r' :: nil).
+Proof. exact (@InlineSem.Refutations.two_definitions_refuted). Qed.
+Print Assumptions C15_two_definitions_refuted.
+
+Theorem C15_used_elsewhere_refuted : forall sym_lt : Ast.sym -> Ast.sym -> Prop, prog_in (notp ("q", 1)) (Refutations.b_g :: nil) = false /\ stmt_in (notp ("q", 1)) Refutations.b_r' = true /\ lits_in (notp ("q", 1)) (at_ "a" ("X" :: nil) :: nil) = true /\ facts_over (fun p : string * nat => p <> ("q", 1)) Refutations.b_I /\ stable sym_lt (Refutations.b_d :: Refutations.b_r :: Refutations.b_g :: nil) Refutations.b_I Refutations.b_T /\ ~ stable sym_lt (Refutations.b_r' :: Refutations.b_g :: nil) Refutations.b_I (restr (nonq "q" ("X" :: nil)) Refutations.b_T).
+Proof. exact (@InlineSem.Refutations.used_elsewhere_refuted). Qed.
+Print Assumptions C15_used_elsewhere_refuted.
+
+Theorem C15_capture_changes_tuples : forall (sym_lt : Ast.sym -> Ast.sym -> Prop) (s : subst), defd sym_lt "q" ("X" :: nil) Refutations.c_BL Refutations.c_T Refutations.c_T /\ simple_lits Refutations.c_BL = true /\ ren_apart ("X" :: nil) Refutations.c_BL Refutations.idr /\ ~ fresh_for ("X" :: nil) Refutations.c_BL Refutations.idr (elem_ctx_vars Refutations.c_tup nil (at_ "b" ("Y" :: nil) :: nil)) /\ AggSem.elems_tuples sym_lt nil Refutations.c_T Refutations.c_T s (elem_q "q" ("X" :: nil) Refutations.idr Refutations.c_tup nil (at_ "b" ("Y" :: nil) :: nil) :: nil) (Refutations.c1 :: Ast.SNum 6 :: nil) /\ ~ AggSem.elems_tuples sym_lt nil Refutations.c_T Refutations.c_T s (elem_u Refutations.c_BL Refutations.idr Refutations.c_tup nil (at_ "b" ("Y" :: nil) :: nil) :: nil) (Refutations.c1 :: Ast.SNum 6 :: nil).
+Proof. exact (@InlineSem.Refutations.capture_changes_tuples). Qed.
+Print Assumptions C15_capture_changes_tuples.
+
+Theorem C15_repeated_head_variable_refuted : forall sym_lt : Ast.sym -> Ast.sym -> Prop, stable sym_lt (Refutations.d_d :: Refutations.d_r :: nil) Refutations.d_I Refutations.d_T /\ ~ stable sym_lt (Refutations.d_d :: Refutations.d_r' :: nil) Refutations.d_I Refutations.d_T /\ ~ equiv_on sym_lt (fun p : Ast.pred => p <> ("q", 2)) (Refutations.d_d :: Refutations.d_r :: nil) (Refutations.d_d :: Refutations.d_r' :: nil).
+Proof. exact (@InlineSem.Refutations.repeated_head_variable_refuted). Qed.
+Print Assumptions C15_repeated_head_variable_refuted.
+
+Theorem C15_negated_occurrence_refuted : forall sym_lt : Ast.sym -> Ast.sym -> Prop, stable sym_lt (Refutations.e_d :: Refutations.e_r :: nil) Refutations.e_I Refutations.e_T /\ ~ stable sym_lt (Refutations.e_d :: Refutations.e_r' :: nil) Refutations.e_I Refutations.e_T /\ ~ equiv_on sym_lt (fun p : Ast.pred => p <> ("q", 1)) (Refutations.e_d :: Refutations.e_r :: nil) (Refutations.e_d :: Refutations.e_r' :: nil).
+Proof. exact (@InlineSem.Refutations.negated_occurrence_refuted). Qed.
+Print Assumptions C15_negated_occurrence_refuted.
+
+Theorem C15_no_splitting_refuted : forall sym_lt : Ast.sym -> Ast.sym -> Prop, stmt_in (notp ("q", 1)) Refutations.f_r' = true /\ prog_in (notp ("q", 1)) (Refutations.f_c1 :: Refutations.f_c2 :: nil) = true /\ lits_in (notp ("q", 1)) (at_ "a" ("X" :: nil) :: nil) = true /\ facts_over (fun p : string * nat => p <> ("q", 1)) Refutations.f_I /\ stable sym_lt (Refutations.f_c1 :: Refutations.f_c2 :: Refutations.f_d :: Refutations.f_r' :: nil) Refutations.f_I Refutations.f_T /\ ~ stable sym_lt (Refutations.f_c1 :: Refutations.f_c2 :: Refutations.f_d :: Refutations.f_r :: nil) Refutations.f_I Refutations.f_T /\ (forall T : interp, ~ stable sym_lt (Refutations.f_c1 :: Refutations.f_c2 :: Refutations.f_d :: Refutations.f_r :: nil) Refutations.f_I T) /\ ~ equiv_on sym_lt (fun p : Ast.pred => p <> ("q", 1)) (Refutations.f_c1 :: Refutations.f_c2 :: Refutations.f_d :: Refutations.f_r :: nil) (Refutations.f_c1 :: Refutations.f_c2 :: Refutations.f_d :: Refutations.f_r' :: nil).
+Proof. exact (@InlineSem.Refutations.no_splitting_refuted). Qed.
+Print Assumptions C15_no_splitting_refuted.
+
+Theorem C15_exB_model : Inline.run_execute ModelExamples.exB_in nil (("p", 0) :: nil) ModelExamples.exB_in = Ast.Ok ModelExamples.exB_out.
+Proof. exact (@InlineSem.ModelExamples.exB_model). Qed.
+Print Assumptions C15_exB_model.
+
+Theorem C15_exA_unfold_sound : forall sym_lt : Ast.sym -> Ast.sym -> Prop, cons_ext sym_lt (fun p : string * nat => p <> ("p", 1)) (nonq "p" ("X" :: nil)) ModelExamples.exA_inlined ModelExamples.exA_in /\ equiv_out sym_lt (fun p : string * nat => p <> ("p", 1)) (fun a : gatom => fst a = "s" /\ Datatypes.length (snd a) = 1) ModelExamples.exA_in ModelExamples.exA_inlined.
+Proof. exact (@InlineSem.ModelExamples.exA_unfold_sound). Qed.
+Print Assumptions C15_exA_unfold_sound.
